@@ -247,8 +247,16 @@ func verifyFunc(prog *Program, fc *FuncContract) (res *FuncResult) {
 		}
 		final = e.merge2(final, rr.st)
 	}
-	if o := e.oblige(final, short+"#cover:exit", "cover", nil, False, node.Pos()); o != nil {
-		o.ExpectSat = true
+	neverReturns := false
+	for _, en := range fc.Ensures {
+		if strings.TrimSpace(en.Src) == "false" {
+			neverReturns = true // the contract says the function has no normal exit: an unreachable exit is the point
+		}
+	}
+	if !neverReturns {
+		if o := e.oblige(final, short+"#cover:exit", "cover", nil, False, node.Pos()); o != nil {
+			o.ExpectSat = true
+		}
 	}
 	var resVal Val
 	switch len(vals) {
